@@ -551,6 +551,17 @@ def carried_keys(ls):
     return [k for k in ls.lh if not (isinstance(ls.next.get(k), T.Tm) and ls.next[k] is ls.lh[k])]
 
 
+def strip_eff(t):
+    """value of a term with the effect markers of forced iterator pipelines removed: eff(x, loopN) -> x"""
+    cur = t
+    for _ in range(20):
+        m = {x: x[2][0] for x in T.subterms(cur) if T.is_app(x, 'eff') and x[2]}
+        if not m:
+            return cur
+        cur = T.subst(cur, m)
+    return cur
+
+
 def collected(ls):
     """sequences a loop builds, one element per iteration, whichever way it is written:
     [(sequence term after the loop, element term of one iteration)] -- `for` + push into an empty Vec, or map(..).collect()"""
